@@ -56,6 +56,8 @@ pub struct Obs {
     pub dispatcher: Option<basset::dispatcher::ConfigResponse>,
     pub registry: Option<Vec<basset_sei_validators_registry::registry::ValidatorResponse>>,
     pub registry_cfg: Option<basset_sei_validators_registry::registry::Config>,
+    /// (owner, pending nominee) of every ownable contract, from Config / NewOwner queries
+    pub owners: BTreeMap<String, (String, String)>,
     pub errors: Vec<String>,
 }
 
@@ -85,7 +87,7 @@ pub fn observe(w: &World, known: &BTreeSet<String>, allow_pairs: &BTreeSet<(usiz
     } else {
         None
     };
-    let dispatcher = if w.contracts.get(DISPATCHER).map(|c| c.kind) == Some(Kind::Dispatcher) {
+    let dispatcher: Option<basset::dispatcher::ConfigResponse> = if w.contracts.get(DISPATCHER).map(|c| c.kind) == Some(Kind::Dispatcher) {
         match query_typed(w, DISPATCHER, &basset_sei_rewards_dispatcher::msg::QueryMsg::Config {}) {
             Ok(c) => Some(c),
             Err(e) => {
@@ -104,12 +106,34 @@ pub fn observe(w: &World, known: &BTreeSet<String>, allow_pairs: &BTreeSet<(usiz
                 None
             }
         };
-        let c = query_typed(w, REGISTRY, &basset_sei_validators_registry::msg::QueryMsg::Config {}).ok();
+        let c: Option<basset_sei_validators_registry::registry::Config> = query_typed(w, REGISTRY, &basset_sei_validators_registry::msg::QueryMsg::Config {}).ok();
         (v, c)
     } else {
         (None, None)
     };
-    Obs { hub, tok, reward, dispatcher, registry, registry_cfg, errors }
+    let mut owners = BTreeMap::new();
+    let nominee = |c: &str| -> Option<String> { crate::wasm::query_json(w, c, &serde_json::json!({"new_owner": {}})).ok().and_then(|v| v.get("new_owner").and_then(|x| x.as_str()).map(|s| s.to_string())) };
+    if let Some(h) = &hub {
+        if let Some(n) = nominee(HUB) {
+            owners.insert(HUB.to_string(), (h.config.owner.clone(), n));
+        }
+    }
+    if let Some(d) = &dispatcher {
+        if let Some(n) = nominee(DISPATCHER) {
+            owners.insert(DISPATCHER.to_string(), (d.owner.clone(), n));
+        }
+    }
+    if let Some(r) = &reward {
+        if let Some(n) = nominee(REWARD) {
+            owners.insert(REWARD.to_string(), (r.config.owner.clone(), n));
+        }
+    }
+    if let Some(c) = &registry_cfg {
+        if let (Ok(o), Some(n)) = (cosmwasm_std::Api::addr_humanize(&crate::wasm::api(), &c.owner), nominee(REGISTRY)) {
+            owners.insert(REGISTRY.to_string(), (o.to_string(), n));
+        }
+    }
+    Obs { hub, tok, reward, dispatcher, registry, registry_cfg, owners, errors }
 }
 
 fn observe_hub(w: &World, known: &BTreeSet<String>, errors: &mut Vec<String>) -> Option<HubObs> {
